@@ -92,6 +92,12 @@ pub const EDGE_FENS: &[&str] = &[
     "4k3/4r3/8/8/8/8/4R3/4K3 w - - 0 1",
     "4k3/8/8/b7/8/8/3P4/4K3 w - - 0 1",
     "8/8/8/8/8/5k2/4p3/4K3 w - - 0 1",
+    // move number 0 (seen in the wild) and clocks beyond 100 (legal up to the 75-move rule)
+    "r3k2r/pppq1ppp/2n2n2/3pp3/3PP3/2N2N2/PPPQ1PPP/R3K2R b KQkq - 4 0",
+    "rnbqkbnr/pppppppp/8/8/8/8/PPPPPPPP/RNBQKBNR w KQkq - 0 0",
+    "8/5k2/8/8/8/8/2K5/4R3 b - - 101 130",
+    "8/5k2/8/8/8/8/2K5/4R3 w - - 120 140",
+    "4k3/8/8/8/8/8/4K3/R7 w - - 149 200",
     // large counters
     "8/5k2/8/8/8/8/2K5/4R3 w - - 90 120",
     "r3k2r/8/8/8/8/8/8/R3K2R w KQkq - 95 80",
@@ -108,6 +114,10 @@ pub const TENSE_FENS: &[&str] = &[
     "r1bq1rk1/pp2bppp/2n1pn2/2pp4/2PP4/2N1PN2/PP2BPPP/R1BQ1RK1 w - - 0 9",
     "1k1r3r/pp1q1ppp/2nbbn2/2ppp3/2PPP3/2NBBN2/PP1Q1PPP/1K1R3R b - - 0 1",
     "2r2rk1/pp1qbppp/2nppn2/2p5/2PPP3/2N1BN2/PP2QPPP/2RR2K1 w - - 0 1",
+    // many queens facing each other: capture sequences explode
+    "6rk/6pp/qQqQqQ2/QqQqQq2/qQ6/8/PP6/KR6 w - - 0 1",
+    "7k/6pp/QqQqQq2/qQqQqQ2/8/8/PP6/K7 w - - 0 1",
+    "k7/pp6/8/8/2qQqQqQ/2QqQqQq/6PP/7K b - - 0 1",
 ];
 
 /// Tense positions and their colour mirrors, validated.
